@@ -73,7 +73,9 @@ Theorem C04_attribute_protocol_partial : forall st tag pts n i,
   (tag_lookup n (cm_tags st) = Some i ->
    cm_step ROps st (CSetAttr n pts) = (MkCM (cm_tags st) (Some (n, pts)) (cm_tr st), Ok OutNone)).
 Proof. intros st tag pts n i. exact (conj (get_is_do_transform st tag pts n) (set_known_tag st n i pts)). Qed.
-(* unknown tags are refused, state unchanged (validated by the correspondence and the oracle, not proved of the code) *)
+(* unknown tags are refused, state unchanged (validated by the correspondence and the oracle, not proved of the code).
+   The third refusal (ValueError when reading before any assignment) is conditional: a name that is an attribute of
+   the class is found by ordinary lookup and never raises (known finding tag_shadows_attribute). *)
 Theorem C04_unknown_tag_errors : forall st n pts a b,
   (tag_lookup n (cm_tags st) = None -> cm_step ROps st (CSetAttr n pts) = (st, Raise AttributeError)) /\
   (tag_lookup a (cm_tags st) = None \/ tag_lookup b (cm_tags st) = None ->
